@@ -1,11 +1,16 @@
 package reftls
 
 import (
+	"crypto/aes"
 	"crypto/cipher"
 	"crypto/hmac"
+	"crypto/sha1"
+	"crypto/sha256"
+	"crypto/sha512"
 	"crypto/subtle"
 	"encoding/binary"
 	"errors"
+	"hash"
 	"math/big"
 
 	"github.com/tjfoc/gmsm/verifsim/ref/refsm2"
@@ -13,10 +18,72 @@ import (
 	"github.com/tjfoc/gmsm/verifsim/ref/refsm4"
 )
 
+// Additional suites: TLS 1.2 with RSA key exchange (RFC 5246), so that the
+// reference endpoints can also play a plain TLS peer. AES and SHA come from the
+// Go standard library.
+const (
+	VersionTLS12       = 0x0303
+	SuiteRSAAES128CBC  = 0x002f // TLS_RSA_WITH_AES_128_CBC_SHA
+	SuiteRSAAES128GCM  = 0x009c // TLS_RSA_WITH_AES_128_GCM_SHA256
+	SuiteRSAAES128CBC2 = 0x003c // TLS_RSA_WITH_AES_128_CBC_SHA256
+	SuiteRSAAES256CBC  = 0x0035 // TLS_RSA_WITH_AES_256_CBC_SHA
+	SuiteRSAAES256GCM  = 0x009d // TLS_RSA_WITH_AES_256_GCM_SHA384
+)
+
+// SuiteDef describes how a suite protects records and derives keys.
+type SuiteDef struct {
+	ID                    uint16
+	MacLen, KeyLen, IVLen int
+	AEAD                  bool
+	GM                    bool // GM/T 0024 ECC suite (SM2 key exchange, SM3 PRF, SM4); otherwise TLS 1.2 RSA/AES
+	prfHash, macHash      func() hash.Hash
+	newBlock              func(key []byte) (cipher.Block, error)
+}
+
+var suiteDefs = []SuiteDef{
+	{ID: SuiteCBC, MacLen: 32, KeyLen: 16, IVLen: 16, GM: true, prfHash: refsm3.New, macHash: refsm3.New, newBlock: refsm4.NewCipher},
+	{ID: SuiteGCM, MacLen: 0, KeyLen: 16, IVLen: 4, AEAD: true, GM: true, prfHash: refsm3.New, newBlock: refsm4.NewCipher},
+	{ID: SuiteRSAAES128CBC, MacLen: 20, KeyLen: 16, IVLen: 16, prfHash: sha256.New, macHash: sha1.New, newBlock: aes.NewCipher},
+	{ID: SuiteRSAAES128CBC2, MacLen: 32, KeyLen: 16, IVLen: 16, prfHash: sha256.New, macHash: sha256.New, newBlock: aes.NewCipher},
+	{ID: SuiteRSAAES128GCM, MacLen: 0, KeyLen: 16, IVLen: 4, AEAD: true, prfHash: sha256.New, newBlock: aes.NewCipher},
+	{ID: SuiteRSAAES256CBC, MacLen: 20, KeyLen: 32, IVLen: 16, prfHash: sha256.New, macHash: sha1.New, newBlock: aes.NewCipher},
+	{ID: SuiteRSAAES256GCM, MacLen: 0, KeyLen: 32, IVLen: 4, AEAD: true, prfHash: sha512.New384, newBlock: aes.NewCipher},
+}
+
+// Suite returns the definition of a suite the reference implements.
+func Suite(id uint16) *SuiteDef {
+	for i := range suiteDefs {
+		if suiteDefs[i].ID == id {
+			return &suiteDefs[i]
+		}
+	}
+	return nil
+}
+
+// VersionOf returns the protocol version a suite belongs to.
+func VersionOf(id uint16) uint16 {
+	if d := Suite(id); d != nil && !d.GM {
+		return VersionTLS12
+	}
+	return VersionGM
+}
+
+func prfHashOf(suite uint16) func() hash.Hash {
+	if d := Suite(suite); d != nil {
+		return d.prfHash
+	}
+	return refsm3.New
+}
+
 // PRF is the TLS 1.2 style P_hash with HMAC-SM3 (GM/T 0024 §5.2.3 / RFC 5246 §5).
 func PRF(secret []byte, label string, seed []byte, n int) []byte {
+	return PRFWith(refsm3.New, secret, label, seed, n)
+}
+
+// PRFWith is P_hash over an arbitrary hash.
+func PRFWith(hf func() hash.Hash, secret []byte, label string, seed []byte, n int) []byte {
 	ls := append([]byte(label), seed...)
-	h := hmac.New(refsm3.New, secret)
+	h := hmac.New(hf, secret)
 	h.Write(ls)
 	a := h.Sum(nil)
 	var out []byte
@@ -32,10 +99,10 @@ func PRF(secret []byte, label string, seed []byte, n int) []byte {
 	return out[:n]
 }
 
-// MasterSecret derives the 48-byte master secret.
-func MasterSecret(pre, clientRandom, serverRandom []byte) []byte {
+// MasterSecret derives the 48-byte master secret (PRF of the suite's family).
+func MasterSecret(suite uint16, pre, clientRandom, serverRandom []byte) []byte {
 	seed := append(append([]byte(nil), clientRandom...), serverRandom...)
-	return PRF(pre, "master secret", seed, 48)
+	return PRFWith(prfHashOf(suite), pre, "master secret", seed, 48)
 }
 
 // Keys is the partitioned key block.
@@ -45,11 +112,8 @@ type Keys struct {
 
 // SuiteParams returns (macLen, keyLen, ivLen) of a suite.
 func SuiteParams(suite uint16) (mac, key, iv int, ok bool) {
-	switch suite {
-	case SuiteCBC:
-		return 32, 16, 16, true
-	case SuiteGCM:
-		return 0, 16, 4, true
+	if d := Suite(suite); d != nil {
+		return d.MacLen, d.KeyLen, d.IVLen, true
 	}
 	return 0, 0, 0, false
 }
@@ -61,7 +125,7 @@ func KeyBlock(master, clientRandom, serverRandom []byte, suite uint16) (Keys, er
 		return Keys{}, errors.New("reftls: unknown suite")
 	}
 	seed := append(append([]byte(nil), serverRandom...), clientRandom...)
-	kb := PRF(master, "key expansion", seed, 2*ml+2*kl+2*il)
+	kb := PRFWith(prfHashOf(suite), master, "key expansion", seed, 2*ml+2*kl+2*il)
 	var k Keys
 	k.CMac, kb = kb[:ml], kb[ml:]
 	k.SMac, kb = kb[:ml], kb[ml:]
@@ -74,13 +138,22 @@ func KeyBlock(master, clientRandom, serverRandom []byte, suite uint16) (Keys, er
 
 // FinishedData computes verify_data over the transcript (concatenated
 // handshake messages).
-func FinishedData(master []byte, client bool, transcript []byte) []byte {
+func FinishedData(suite uint16, master []byte, client bool, transcript []byte) []byte {
 	label := "server finished"
 	if client {
 		label = "client finished"
 	}
-	h := refsm3.Sum(transcript)
-	return PRF(master, label, h[:], 12)
+	hf := prfHashOf(suite)
+	h := hf()
+	h.Write(transcript)
+	return PRFWith(hf, master, label, h.Sum(nil), 12)
+}
+
+// TranscriptHash hashes the transcript with the suite family's hash.
+func TranscriptHash(suite uint16, transcript []byte) []byte {
+	h := prfHashOf(suite)()
+	h.Write(transcript)
+	return h.Sum(nil)
 }
 
 // Half is the protection state of one direction.
@@ -92,16 +165,21 @@ type Half struct {
 	Seq   uint64
 	blk   cipher.Block
 	aead  cipher.AEAD
+	def   *SuiteDef
 }
 
 // NewHalf creates the protection state.
 func NewHalf(suite uint16, key, mac, iv []byte) (*Half, error) {
-	b, err := refsm4.NewCipher(key)
+	d := Suite(suite)
+	if d == nil {
+		return nil, errors.New("reftls: unknown suite")
+	}
+	b, err := d.newBlock(key)
 	if err != nil {
 		return nil, err
 	}
-	h := &Half{Suite: suite, Key: key, Mac: mac, IV: iv, blk: b}
-	if suite == SuiteGCM {
+	h := &Half{Suite: suite, Key: key, Mac: mac, IV: iv, blk: b, def: d}
+	if d.AEAD {
 		h.aead, err = cipher.NewGCM(b)
 		if err != nil {
 			return nil, err
@@ -111,7 +189,7 @@ func NewHalf(suite uint16, key, mac, iv []byte) (*Half, error) {
 }
 
 func (h *Half) macOf(seq uint64, typ uint8, vers uint16, content []byte) []byte {
-	m := hmac.New(refsm3.New, h.Mac)
+	m := hmac.New(h.def.macHash, h.Mac)
 	var hdr [13]byte
 	binary.BigEndian.PutUint64(hdr[:], seq)
 	hdr[8] = typ
@@ -137,8 +215,8 @@ func (h *Half) Protect(typ uint8, vers uint16, content []byte, o *ProtectOpts) [
 	}
 	seq := h.Seq
 	h.Seq++
-	switch h.Suite {
-	case SuiteGCM:
+	switch {
+	case h.def.AEAD:
 		explicit := o.ExplicitIV
 		if explicit == nil {
 			explicit = make([]byte, 8)
@@ -161,6 +239,8 @@ func (h *Half) Protect(typ uint8, vers uint16, content []byte, o *ProtectOpts) [
 			mac[0] ^= 1
 		}
 		pt := append(append([]byte(nil), content...), mac...)
+		macLen := h.def.MacLen
+		_ = macLen
 		pad := o.PadLen
 		min := 15 - len(pt)%16 // pad so that len(pt)+pad+1 is a multiple of 16
 		if pad < 0 {
@@ -210,8 +290,8 @@ type UnprotectInfo struct {
 func (h *Half) Unprotect(typ uint8, vers uint16, body []byte) ([]byte, *UnprotectInfo, error) {
 	seq := h.Seq
 	info := &UnprotectInfo{}
-	switch h.Suite {
-	case SuiteGCM:
+	switch {
+	case h.def.AEAD:
 		if len(body) < 8+16 {
 			return nil, nil, ErrBadRecord
 		}
@@ -231,7 +311,8 @@ func (h *Half) Unprotect(typ uint8, vers uint16, body []byte) ([]byte, *Unprotec
 		h.Seq++
 		return pt, info, nil
 	default:
-		if len(body) < 16+48 || len(body)%16 != 0 {
+		ml := h.def.MacLen
+		if len(body) < 16+ml+1 || len(body)%16 != 0 {
 			return nil, nil, ErrBadRecord
 		}
 		iv := body[:16]
@@ -240,7 +321,7 @@ func (h *Half) Unprotect(typ uint8, vers uint16, body []byte) ([]byte, *Unprotec
 		pt := make([]byte, len(body)-16)
 		cipher.NewCBCDecrypter(h.blk, iv).CryptBlocks(pt, body[16:])
 		pad := int(pt[len(pt)-1])
-		if pad+1+32 > len(pt) {
+		if pad+1+ml > len(pt) {
 			return nil, nil, ErrBadRecord
 		}
 		for i := len(pt) - 1 - pad; i < len(pt); i++ {
@@ -249,8 +330,8 @@ func (h *Half) Unprotect(typ uint8, vers uint16, body []byte) ([]byte, *Unprotec
 			}
 		}
 		info.PadLen = pad
-		content := pt[:len(pt)-1-pad-32]
-		mac := pt[len(pt)-1-pad-32 : len(pt)-1-pad]
+		content := pt[:len(pt)-1-pad-ml]
+		mac := pt[len(pt)-1-pad-ml : len(pt)-1-pad]
 		if subtle.ConstantTimeCompare(mac, h.macOf(seq, typ, vers, content)) != 1 {
 			return nil, nil, ErrBadRecord
 		}
